@@ -455,7 +455,9 @@ def gen_case_rename_collision(rng, k):
     sub = units_to_nodes(rng, new_node(1000), units)
     rules = [{"match_expression": "^%s/[0-9]+$" % stem, "replacement": target, "eval_order": 1}]
     sub = {"k": "rules", "b": sub, "rules": json.dumps(rules)}
-    return {"cls": "A", "mode": "full", "cmp_forced": True, "tree": sub, "desc": "rename collision onto an unchanged name k=%d" % k}
+    # cmp_forced False: which of the colliding entries gives the merged entry its forced flag depends on the
+    # order in which Go walks the map (the flag is not part of the reported data)
+    return {"cls": "A", "mode": "full", "cmp_forced": False, "tree": sub, "desc": "rename collision onto an unchanged name k=%d" % k}
 
 
 def gen_case_failed_chain(rng, n, with_rules):
@@ -799,7 +801,7 @@ def run(chk, replay=None):
         i = res["r_corr_bad"][0]
         broken.append("correspondence Rules.c_rules_apply / rules_from_json vs MetricRules differs on %d rule cases, first %d:\n%s\nobserved=%s"
                       % (len(res["r_corr_bad"]), i, json.dumps(rcases[i]), json.dumps(robs[i])))
-    if broken and not chk.violations and not chk.known_hits:
+    if broken and not chk.violations:
         chk.fail("broken.txt", "\n\n".join(broken), no_input=True)
     chk.cov["disagreements"] = {k: len(v) for k, v in res.items()}
     chk.cov["table_cases"] = len(tcases)
